@@ -8,7 +8,7 @@ def _fn_body(txt, header_rx, what):
     """text of the function whose header matches header_rx (balanced braces)"""
     m = re.search(header_rx, txt, re.S)
     if not m:
-        raise X.ExtractError(f'{what}: not found')
+        raise X.ShapeChanged(f'{what}: not found')
     i = txt.index('{', m.end() - 1) if txt[m.end() - 1] != '{' else m.end() - 1
     depth, j = 0, i
     while j < len(txt):
@@ -29,14 +29,14 @@ def gen_metrics_temporal(repo):
     txt = X._strip_comments(X._read(repo, 'sdk/src/metrics/state/temporal_metric_storage.cc'))
     m = re.search(r'if\s*\(\s*collectors\.size\(\)\s*==\s*(\d+)\s*&&\s*aggregation_temporarily\s*==\s*AggregationTemporality::(\w+)\s*\)', txt)
     if not m:
-        raise X.ExtractError('temporal_metric_storage.cc: fast path condition `collectors.size() == N && aggregation_temporarily == kX` not found')
+        raise X.ShapeChanged('temporal_metric_storage.cc: fast path condition `collectors.size() == N && aggregation_temporarily == kX` not found')
     out.append('/-- `collectors.size() == N` of the fast path in `TemporalMetricStorage::buildMetrics` -/\n'
                f'def temporalFastPathCollectors : Nat := {int(m.group(1))}\n')
     out.append('/-- the fast path is for delta temporality -/\n'
                f'def temporalFastPathIsDelta : Bool := {"true" if m.group(2) == "kDelta" else "false"}\n')
     # a non-empty delta is pushed for every collector
     if not re.search(r'if\s*\(\s*delta_metrics->Size\(\)\s*\)\s*\{\s*for\s*\(auto &col : collectors\)\s*\{\s*unreported_metrics_\[col\.get\(\)\]\.push_back\(delta_metrics\);', txt):
-        raise X.ExtractError('temporal_metric_storage.cc: `if (delta_metrics->Size()) for (col : collectors) unreported_metrics_[col].push_back(delta)` not found')
+        raise X.ShapeChanged('temporal_metric_storage.cc: `if (delta_metrics->Size()) for (col : collectors) unreported_metrics_[col].push_back(delta)` not found')
     # --- Sum aggregation: Merge is +, Diff is next - this
     txt = X._strip_comments(X._read(repo, 'sdk/src/metrics/aggregation/sum_aggregation.cc'))
     for ty, vt in (('Long', 'int64_t'), ('Double', 'double')):
@@ -44,7 +44,7 @@ def gen_metrics_temporal(repo):
             body = _fn_body(txt, ty + r'SumAggregation::' + fn + r'\s*\(const Aggregation &' + var + r'\)\s*const\s*noexcept\s*\{', f'{ty}SumAggregation::{fn}')
             mm = re.search(r'static_cast<const ' + ty + r'SumAggregation &>\(' + var + r'\)\.ToPoint\(\)\)\)\s*\.value_\)\s*([+\-*/])\s*nostd::get<' + vt + r'>\(nostd::get<SumPointData>\(ToPoint\(\)\)\.value_\)', body)
             if not mm:
-                raise X.ExtractError(f'{ty}SumAggregation::{fn}: expression `get({var}) OP get(this)` not found')
+                raise X.ShapeChanged(f'{ty}SumAggregation::{fn}: expression `get({var}) OP get(this)` not found')
             sign = {'+': 1, '-': -1}.get(mm.group(1))
             if sign is None:
                 raise X.ExtractError(f'{ty}SumAggregation::{fn}: operator {mm.group(1)}')
@@ -58,7 +58,7 @@ def gen_metrics_temporal(repo):
             body = _fn_body(txt, ty + r'LastValueAggregation::' + fn + r'\s*\(\s*const Aggregation &' + var + r'\)\s*const\s*noexcept\s*\{', f'{ty}LastValueAggregation::{fn}')
             mm = re.search(r'if\s*\(nostd::get<LastValuePointData>\(ToPoint\(\)\)\.sample_ts_\.time_since_epoch\(\)\s*(>=|>|<=|<)\s*nostd::get<LastValuePointData>\(' + var + r'\.ToPoint\(\)\)\.sample_ts_\.time_since_epoch\(\)\)', body)
             if not mm:
-                raise X.ExtractError(f'{ty}LastValueAggregation::{fn}: comparison of sample times not found')
+                raise X.ShapeChanged(f'{ty}LastValueAggregation::{fn}: comparison of sample times not found')
             strict = strict and mm.group(1) == '>'
     out.append('/-- the last-value `Merge` / `Diff` keep `this` exactly when `this.sample_ts > other.sample_ts` -/\n'
                f'def lastValueKeepsThisWhenStrictlyLater : Bool := {"true" if strict else "false"}\n')
@@ -71,8 +71,12 @@ def gen_metrics_temporal(repo):
     # --- ObservableRegistry::Observe iterates callbacks_ once
     txt = X._strip_comments(X._read(repo, 'sdk/src/metrics/state/observable_registry.cc'))
     body = _fn_body(txt, r'void ObservableRegistry::Observe\s*\([^)]*\)\s*\{', 'ObservableRegistry::Observe')
-    n = len(re.findall(r'callback_wrap->callback\(ob_res, callback_wrap->state\);', body))
-    loops = len(re.findall(r'for\s*\(auto &callback_wrap : callbacks_\)', body))
+    n = len(re.findall(r'(?:->|\.)\s*callback\s*\(', body))
+    loops = len(re.findall(r'for\s*\(\s*(?:const\s+)?auto\s*&\s*\w+\s*:\s*callbacks_\s*\)', body))
+    if loops != 1 or n != 2:
+        # moved into a helper, merged into one templated call, ...: how often a callback runs per collection is what the
+        # correspondence run observes directly (`each-callback-once-per-collect`), so this is a change of shape, not of value
+        raise X.ShapeChanged(f'ObservableRegistry::Observe: {loops} loop(s) over callbacks_ with {n} textual callback invocation(s) (the model mirrors 1 loop, 2 sites)')
     out.append('/-- `Observe`: one loop over `callbacks_`, one invocation per value type branch -/\n'
                f'def observeLoops : Nat := {loops}\n\ndef observeInvocationSites : Nat := {n}\n')
     out.append('end Otel.Gen\n')
